@@ -61,9 +61,11 @@ class Run:
         self.fs = self.make_fs()
         self.world = World(self.fs, history_side=True)
         self.zy = Zygote(self.make_fs)
+        self.pz = Zygote(self.make_fs, pristine=True)
 
     def close(self):
         self.zy.close()
+        self.pz.close()
         self.fs.cleanup()
 
     def bump(self, d, k, n=1):
@@ -127,6 +129,26 @@ class Run:
         except Mismatch as m:
             props = ["C18", "C19"] if bound.importy else ["C19"]
             raise Violation(props, "O2", bound.label, f"{what}: history and history-free world disagree: {m}")
+
+    def _o2_pristine(self, bound, out, env, what):
+        """Import calls whose arguments need no library object are also compared with a process in which
+        the library has never been called at all (closes the gap left by state-building calls that the
+        ordinary reference has to execute as well)."""
+        if not getattr(self, "_pristine", False):
+            return
+        if not getattr(bound, "pristine_ok", True):
+            self.bump(self.stats, "o2_pristine_skipped_user_modified_molecule")
+            return
+        ref = self.pz.eval(env)
+        if ref[0] == "harness":
+            raise HarnessError("pristine reference: " + str(ref[1]))
+        try:
+            compare_outcomes(out, ref, self.stats)
+        except Mismatch as m:
+            raise Violation(["C18", "C19"], "O2-pristine", bound.label,
+                            f"{what}: the result differs from the same call in a process that never called the "
+                            f"library before: {m}")
+        self.bump(self.stats, "o2_pristine_comparisons")
 
     def _o5(self, bound, out, value, what, env=None):
         if bound.expect is None or not bound.valid:
@@ -214,6 +236,10 @@ class Run:
         zr = self.zy.op(op)
         if zr[0] == "harness":
             raise HarnessError("reference resolve: " + str(zr[1]))
+        pr = self.pz.op(op)
+        if pr[0] == "harness":
+            raise HarnessError("pristine reference resolve: " + str(pr[1]))
+        self._pristine = pr[0] == "resolved"
         entry = {"i": i, "op": op["op"], "callee": bound.label}
         if bound.skip:
             entry["skip"] = bound.skip
@@ -244,6 +270,7 @@ class Run:
                                     f"{_short(pre_args[2][idx[0]] if idx else pre_args)} -> "
                                     f"{_short(post_args[2][idx[0]] if idx else post_args)}")
             self._o2(bound, out, zr, "state-building call")
+            self._o2_pristine(bound, out, None, "kept import call")
             if bound.importy or op["op"] == "query":
                 self._check_held_results(bound)
             if out[0] == "ok" and bound.post:
@@ -288,6 +315,7 @@ class Run:
             dry = Tracer(self.api.pkgdir, target=None, sampler=sampler, cheap=cheap_ambient)
             out, value = self._checked_call(bound, env, pre_args, pre_pool, tracer=dry, what="call")
             self._o2(bound, out, ref, "call (traced, no fault)")
+            self._o2_pristine(bound, out, env, "call")
             self._o5(bound, out, value, "call", env)
             entry["dry"] = outcome_digest(out)
             self.traced_events += dry.n
@@ -335,7 +363,7 @@ class Run:
                     self._o2(bound, fout, ref, "call with injected I/O fault that did not propagate")
             else:
                 self._o2(bound, fout, ref, "call")
-            if self.fs.open_handles != 0 and isinstance(self.fs, SimFS):
+            if self.fs.open_handles != 0 and self.fs.seam:
                 self.bump(self.stats, "probe_file_handle_left_open")
                 self.fs.open_handles = 0
             entry["fault"] = [fault["which"], outcome_class(fout)]
@@ -346,6 +374,7 @@ class Run:
         else:
             out, value = self._checked_call(bound, env, pre_args, pre_pool)
             self._o2(bound, out, ref, "call")
+            self._o2_pristine(bound, out, env, "call")
             self._o5(bound, out, value, "call", env)
             if env and out[0] == "raise":
                 # did the hostile ambient state cause it?  (fired = reference under default differs)
